@@ -168,7 +168,7 @@ pub fn judge_faulty(plan: &ClientPlan, run: &ClientRun, out: &mut RunOut) {
 
     // R2 abandon
     for f in &pt.fired {
-        if matches!(f.kind, FaultKind::WrongSerial | FaultKind::IdentityAbort(_) | FaultKind::StaleAfter(_)) {
+        if matches!(f.kind, FaultKind::WrongSerial | FaultKind::IdentityAbort(_) | FaultKind::StaleAfter(_) | FaultKind::CloseIdle) {
             // identity faults are judged with R1 above; unsolicited bytes behind a good frame are
             // only seen by the client when it reads them (the hang they may cause is C10's)
             continue;
